@@ -219,6 +219,21 @@ def tuple_and_keyed_variables_history():
     return [mk(3, 5), mk(4, 5), mk(4, 6)], ["initial", "value of variable G0 (a tuple)", "value of variable G1 (a dictionary with integer keys)"]
 
 
+def mutated_containers_history():
+    """module-level lists and dictionaries edited in place inside the running process (the name stays bound to the same object)"""
+    def fn(name, kind, module, const, refs=()):
+        return {"name": name, "kind": kind, "module": module, "const": const, "default": None, "kwdefault": None, "setconst": None, "tupconst": None,
+                "sset": None, "pair": None, "nested": None, "explicit": None, "hidden": None, "shadow": None, "refs": [list(r) for r in refs]}
+
+    def mk(l, d):
+        return {"pkg": "vpk", "nodes": [{"name": "G0", "kind": "v", "module": "a", "vkind": "list", "value": l},
+                                        {"name": "G1", "kind": "v", "module": "b", "vkind": "dict", "value": {"k": d}},
+                                        fn("h0", "p", "b", 4, [("G1", "bare")]), fn("m0", "m", "a", 10, [("G0", "bare")]), fn("m1", "m", "b", 20, [("h0", "bare")]),
+                                        fn("m2", "m", "a", 30, [("m0", "bare"), ("m1", "attr")])]}
+    return [mk([1, 2], 5), mk([1, 2, 4], 5), mk([1, 2, 4], 6), mk([9, 2, 4], 6)], ["initial", "value of variable G0 (list, edited in place)", "value of variable G1 (dictionary read by a helper, edited in place)",
+                                                                                    "value of variable G0 (an element replaced in place)"]
+
+
 def header_default_history():
     """a plain helper named only in the header of its user (default value of a parameter), in a plain helper and in a
     memento function; the helper's body is edited"""
@@ -350,7 +365,7 @@ def run(tier, seed):
     terms, metas = [], []
     with C.Scratch("c01") as scratch:
         jobs = []
-        for hi in range(n_hist + 8):
+        for hi in range(n_hist + 9):
             if hi == n_hist:
                 eds, descs = concat_history()
             elif hi == n_hist + 1:
@@ -367,6 +382,8 @@ def run(tier, seed):
                 eds, descs = hidden_memoized_history()
             elif hi == n_hist + 7:
                 eds, descs = tuple_and_keyed_variables_history()
+            elif hi == n_hist + 8:
+                eds, descs = mutated_containers_history()
             else:
                 eds, descs = make_history(rng, rng.randint(2, 4) if tier == "quick" else rng.randint(2, 6))
             how_ = rng.choice(["reload", "exec"])
@@ -406,7 +423,8 @@ def run(tier, seed):
                         newly_defined = [n for n in others if n["kind"] == "p" and vprog.node(prev, n["name"])["kind"] == "u"]
                         if changed_vars and not others:
                             ed["files"] = {}
-                            ed["setattrs"] = [[n["module"], vprog.sym(n), n["value"]] for n in changed_vars]
+                            # lists and dictionaries are edited in place (same object), the other kinds by re-binding the name
+                            ed["setattrs"] = [[n["module"], vprog.sym(n), n["value"]] + (["mutate"] if n["vkind"] in ("list", "dict") else []) for n in changed_vars]
                         elif others and len(newly_defined) == len(others) and not changed_vars:
                             # only new definitions of names that were undefined: executed on their own, nothing else re-run
                             ed["files"] = {}
